@@ -48,7 +48,7 @@ Step ==
          bad == (IF fresh THEN LineBad(ln) ELSE {}) \cup
                 (IF prev # NULL /\ SameGroup(prev, ln) /\ ~Open(ln) /\ Len(ln.results) >= 1 /\ Len(prev.results) >= 1
                  THEN PairBad(prev, ln) ELSE {})
-     IN /\ viol' = IF Cardinality(viol) >= MaxViol THEN viol ELSE viol \cup {<<l + 1, nm>> : nm \in bad}
+     IN /\ viol' = viol \cup {<<l + 1, nm>> : nm \in {x \in bad : Cardinality({w \in viol : w[2] = x}) < MaxViol}}
         /\ drift' = IF fresh /\ LineDrift(ln) /\ Cardinality(drift) < MaxViol THEN drift \cup {l + 1} ELSE drift
         /\ prev' = IF Open(ln) THEN prev ELSE ln
         /\ cnt' = Bump(cnt, (IF fresh THEN {"classes." \o ln.deck \o "." \o ln.table, "cat." \o CatName(RefCat(Hand(ln)))} ELSE {})
